@@ -23,7 +23,7 @@ func init() {
 		Rule: "EXHAUSTIVE arrays of length 0..4 over {1,2,3,nil}, {1.5,2.0,2.5,nil}, {\"a\",\"B\",\"c\",nil} and the mixed alphabet {1,2.5,\"a\",nil} (1364 arrays) x every array filter (sort, sort: key, reverse, uniq, compact, concat, first, last, size, join, map) x Go representations ([]any with spare capacity, typed slice, fixed array, range literal where the array is one, Drop of array, yaml.MapSlice, generic slices whose nils are typed nil pointers); arrays of maps with present/absent/nil keys; PRNG arrays of length 5..8 and filter chains of length 2..4. Every case renders the filter result element by element AND the receiver again afterwards; the Go binding is compared with an identical fresh realisation after the render. Non-trivial = array length >= 2; distinct = distinct (filter, array, representation).",
 		Exhaustive: func(string) bool { return true },
 		Assumptions: []string{
-			"order among incomparable elements (mixed kinds, nil) under sort, and sort_natural, are not asserted beyond 'permutation, input unchanged, no panic'",
+			"where nil and values of different kinds stand after sort is not asserted (only that no element stands before a smaller one); sort_natural is not asserted beyond 'permutation, input unchanged, no panic'",
 			"an ordered map is accepted as the sequence of its values",
 		},
 		Run: runC15,
@@ -277,8 +277,14 @@ func (x *c15) array(a []gen.V, kind int, idx int) {
 			if multiset(got) != multiset(a) {
 				return "sort must return a permutation of its input"
 			}
-			if allOrdered(a) && !ascending(got) {
-				return "sort must return ascending order"
+			// ascending: no element stands before one that is smaller than it. Where nil and values of different kinds
+			// go is not stated (no order is defined between them), but they do not excuse 3 standing before 1
+			for i := range got {
+				for j := i + 1; j < len(got); j++ {
+					if ref.Less(got[j], got[i]) == ref.True {
+						return "sort must return ascending order"
+					}
+				}
 			}
 			return ""
 		}},
